@@ -538,8 +538,11 @@ class Sim:
 
     def yield_point(self) -> None:
         a = self.me()
-        if a is None:
+        if a is None or self.tearing_down:
             return
+        if not a.proc.alive:
+            return
+        self._count_step(a)
         self._pass_baton(a)
         if not a.proc.alive:
             raise SimDead()
